@@ -10,7 +10,8 @@ COQ_IMPORTS = ['Base.Str', 'Base.Value', 'Proc.RowOps', 'Proc.Sort']
 RULE = ('cases = generated tables (0-40 rows, thorough: up to 12000 rows to exceed the 10240-entry cache) with duplicate keys, '
         'negative/fractional/huge numbers and text keys x key as field list / format string / callable x reverse x '
         'batch_size; non-trivial = at least two rows with a key comparison that matters (not already sorted, or ties); '
-        'distinct = distinct case digest')
+        'distinct = distinct case digest'
+        '; round 4: numeric key fields declared any/integer/number/year')
 TRUSTED = ['Coq 8.16.1 kernel + vm_compute', 'harness/p12.py printers, oracle and finding recognisers',
            'KVFile (third party) is specified as an ordered map whose items() are ascending by key; exercised at several batch sizes and above its cache size',
            'order-preservation of the sign-flipped binary64 bit image is validated by correspondence, not proved (Proc/Sort.v dbl_bits)']
